@@ -610,8 +610,9 @@ def hash_builder_table(F, rep, rule):
                                  "(b:<k-mer>:<stored position>:<complemented>)" % (got_seq, want_seq), row))
                 continue
             if not (isinstance(r, Tup) and len(r.fields) == 2):
-                problems.append(("result shape %r" % (r,), row))
-                continue
+                # the builder's result type is private to the route: another shape is not a wrong value
+                rep.inconclusive(rule, key0 + "/row%d" % rows, "node builder: result shape %r — not the (extensions, payload) pair this table reads" % (r,))
+                return
             ex, data = r.fields
             fold = data.info.get("fold") if isinstance(data, Opaque) else None
             want_fold = ["seed"] + ["l%d" % i for i in range(nl)] + ["r%d" % i for i in range(nr)]
@@ -733,8 +734,9 @@ def graph_builder_table(F, rep, rule):
                              "left walk are flipped; (node, orientation) with Left = as stored)" % (h.seq_path, want_path), row))
             continue
         if not (isinstance(out, Tup) and len(out.fields) == 4):
-            problems.append(("result shape %r" % (out,), row))
-            continue
+            # the builder's result type is private to the route: another shape is not a wrong value
+            rep.inconclusive(rule, key0 + "/row%d" % rows, "graph node builder: result shape %r — not the (sequence, extensions, path, payload) tuple this table reads" % (out,))
+            return
         seq, ex, npath, data = out.fields
         if "path-seq" not in tags_of(seq):
             problems.append(("the returned sequence is not the one spelled by sequence_of_path over the assembled node path", row))
